@@ -72,6 +72,21 @@ def gen(tier, seed):
             recs.append(NW.measure_bool(rid, A, B, lift, fname, call, DELTA, None, None, proxy, normal=u))
             meta[rid] = {"A": A.describe(), "B": B.describe(), "clsA": A.classes()[0], "clsB": B.classes()[0], "fn": fname,
                          "lift": [lift[0], lift[1].tolist(), lift[2].tolist()]}
+    # shallow but clear overlaps (2..15 delta) at the smallest feature sizes of the domain, with generic lateral offsets: absolute
+    # tolerances of the iterative tests (portal tolerance 1e-4, EPSILON-type thresholds) against quantities of size 1e-2
+    for A, B0 in NW.gen_scenes(rng, 150 if tier == "quick" else 3000):
+        lift = NW.random_lift(rng, A, B0, "tiny")
+        L = NW.scene_L(A, B0, lift)
+        B1 = NW.Body(B0.spec, B0.M, B0.t + np.array([rng.uniform(-0.7, 0.7) for _ in range(3)]), B0.margin, B0.cls)
+        B, u = NW.graze(A, B1, rng, DELTA * L / lift[0], ks=(-2, -4, -8, -15))
+        for fname, (call, proxy, only) in fns.items():
+            if only is not None or "nesterov" in fname:
+                continue
+            n += 1
+            rid = f"b{n}"
+            recs.append(NW.measure_bool(rid, A, B, lift, fname, call, DELTA, None, None, proxy, normal=u))
+            meta[rid] = {"A": A.describe(), "B": B.describe(), "clsA": A.classes()[0], "clsB": B.classes()[0], "fn": fname,
+                         "lift": [lift[0], lift[1].tolist(), lift[2].tolist()], "family": "tiny-overlap"}
     # shallow but clear overlaps (2..10 delta) exactly where the world AABB of a rotated body is attained: a rotated ellipsoid /
     # cylinder / cone / capsule touched at its extreme point along a world axis by a box or sphere (broad-phase style early exits
     # inside the narrow phase depend on the AABB being right there)
